@@ -94,14 +94,6 @@ def strategy(tier):
                                'kind': st.sampled_from(['emit', 'send']),
                                'data': st.just('d'), 'cb': st.just(True)}),
         st.fixed_dictionaries({'op': st.just('sdisc_all')}),
-        # the server sends an ordinary EVENT that is named like one of the
-        # client's life-cycle events: nothing connects, nothing ends
-        st.fixed_dictionaries({'op': st.just('reserved_ev'), 'ns': nsi,
-                               'name': st.sampled_from(['connect',
-                                                        'disconnect',
-                                                        'connect_error']),
-                               'id': st.one_of(st.none(), st.integers(0, 3)),
-                               'arg': st.sampled_from([[], ['x'], [1, 2]])}),
         st.fixed_dictionaries({'op': st.just('disconnect')}),
         st.fixed_dictionaries({'op': st.just('lose')}),
         st.fixed_dictionaries({'op': st.just('close')}),
@@ -553,22 +545,6 @@ def _run(case, h):
                 continue
             nlog = len(log)
             was = sorted(model['accepted'])
-            if k == 'reserved_ev':
-                ns = NSS[op['ns']]
-                if ns not in model['accepted'] or model['partial']:
-                    continue
-                for f in wire.frames(wire.EVENT, ns, op['id'],
-                                     [op['name']] + list(op['arg'])):
-                    h.deliver(f)
-                if log[nlog:]:
-                    raise Violation('lifecycle-handler-run-by-event',
-                                    'server EVENT %r on %s ran %r'
-                                    % (op['name'], ns, log[nlog:]))
-                h.take_outbox()
-                check_state('after an EVENT named %s' % op['name'])
-                labels['event_named_like_lifecycle_event'] = True
-                labels['nontrivial'] = True
-                continue
             if k == 'sdisc_all':
                 # the server ends every connected namespace, one by one
                 if model['partial'] or not model['accepted']:
